@@ -19,7 +19,7 @@ macro "rt_unfold" : tactic => `(tactic|
          GetChannel_response_0, GetChannel_handle_0, GetChannel_handle_1, ConfigFile_request_0, ConfigFile_handle_0,
          StatusBlock_request_0, StatusBlock_handle_0, PartialStatusBlock_handle_0, PartialStatusBlock_handle_1,
          AsyncPartialStatusBlock_async_handle_0, Watercare_request_0, Watercare_response_0, Watercare_handle_0,
-         Watercare_handle_1, Watercare_handle_2, Reminders_request_0, Reminders_handle_0, UpdateFirmware_request_0,
+         Watercare_handle_1, Watercare_handle_2, Watercare_handle_3, Watercare_set_0, Reminders_request_0, Reminders_handle_0, UpdateFirmware_request_0,
          UpdateFirmware_handle_0, pingResponseTail, firmwareResponseTail, giveschedulePayload] at *)
 
 /-- forms whose content is `verb ++ struct.pack(fmt, fields)`, decoded by one `struct.unpack` of the whole remainder
@@ -32,7 +32,7 @@ macro "rt_pack" h:ident : tactic => `(tactic| (
   have hl := pack_length hb
   clear hb
   simp [Fmt.size, Code.size, Version_request_0, GetChannel_request_0, ConfigFile_request_0, Watercare_request_0, Reminders_request_0,
-    UpdateFirmware_request_0, Version_response_0, GetChannel_response_0, StatusBlock_request_0, Watercare_response_0,
+    UpdateFirmware_request_0, Version_response_0, GetChannel_response_0, StatusBlock_request_0, Watercare_response_0, Watercare_set_0,
     PartialStatusBlock_handle_1] at hl
   intro k hk
   simp only [Msg.handlers, List.mem_cons, List.mem_singleton, List.not_mem_nil, or_false] at hk
@@ -142,7 +142,7 @@ theorem rt_remindersResponse (rs : List (Int × Int)) (hd : rs.all (fun td => re
 /-- **content round trip**, every packet message form: whatever the constructor puts after `<DATAS>` is decoded, by
 each handler class meant for it, to the field values the message was built from -/
 theorem content_roundtrip (m : Msg) (c : Bytes) (hc : m.content = .ok c) (hh : m.isHello = false)
-    (hd : m.inDomain = true) (hs : m.isWcSet = false) : ∀ k ∈ m.handlers, decode k c = .ok m.fields := by
+    (hd : m.inDomain = true) : ∀ k ∈ m.handlers, decode k c = .ok m.fields := by
   cases m with
   | helloBroadcast => cases hh
   | helloClient _ => cases hh
@@ -172,7 +172,7 @@ theorem content_roundtrip (m : Msg) (c : Bytes) (hc : m.content = .ok c) (hh : m
     intro k hk; simp [Msg.handlers] at hk; subst hk; exact rt_setValue _ _ _ _ _ _ _ c hc
   | packResponse => rt_const hc
   | wcRequest seq => rt_pack hc
-  | wcSet _ _ => cases hs
+  | wcSet seq mode => rt_pack hc
   | wcResponse mode => rt_pack hc
   | wcGiveSchedule => rt_const hc
   | remindersRequest seq => rt_pack hc
